@@ -54,6 +54,20 @@ def parsePD : Nat → List String → Option (List PD)
         pure (⟨⟨pr, ex, w⟩, gb, gd, some am⟩ :: more)
   | _, _ => none
 
+/-- token groups of a `liq-epoch` line: znnPct qsrPct nStakes {start revoke weighted}* -/
+def parseLiq : Nat → List Int → Option (List (Int × Int × List (Int × Int × Int)))
+  | 0, [] => some []
+  | 0, _ :: _ => none
+  | n + 1, pz :: pq :: k :: rest =>
+      if k < 0 ∨ rest.length < 3 * k.toNat then none else do
+        let gs ← groups 3 k.toNat (rest.take (3 * k.toNat))
+        let st ← gs.mapM (fun g => match g with
+          | [a, b, c] => some (a, b, c)
+          | _ => none)
+        let more ← parseLiq n (rest.drop (3 * k.toNat))
+        pure ((pz, pq, st) :: more)
+  | _, _ => none
+
 def toStat : List Int → Option PillarStat
   | [p, e, w] => if p < 0 ∨ e < 0 then none else some ⟨p.toNat, e.toNat, w⟩
   | _ => none
@@ -133,6 +147,30 @@ def pureRewards : List String → Option String
             let (pp, shares) := pillarSplit r pd.gb pd.gd bs
             pp :: (if shares.isEmpty then bs.map (fun _ => 0) else shares))
         pure (joinInts out)
+  | "liq-epoch" :: e :: st :: en :: az :: aq :: n :: rest => do
+      let e ← e.toNat?
+      let st ← st.toInt?
+      let en ← en.toInt?
+      let az ← az.toInt?
+      let aq ← aq.toInt?
+      let n ← n.toNat?
+      let xs ← rest.mapM String.toInt?
+      let toks ← parseLiq n xs
+      match liquidityRewardForEpoch e with
+      | none => pure "panic"
+      | some (lz, lq) =>
+        let Tz := lz + (if az > 0 then az else 0)
+        let Tq := lq + (if aq > 0 then aq else 0)
+        let ws := toks.map (fun (_, _, ss) => ss.map (fun (s, r, a) => weightedStake s r a st en))
+        let fill (rs : List (List Int)) : List Int :=
+          (rs.zip ws).flatMap (fun (r, w) => if r.isEmpty then w.map (fun _ => 0) else r)
+        let rz := fill (liquidityStakeRewards Tz Gen.LiquidityZnnTotalPercentages
+          ((toks.zip ws).map (fun ((pz, _, _), w) => (pz, w))))
+        let rq := fill (liquidityStakeRewards Tq Gen.LiquidityQsrTotalPercentages
+          ((toks.zip ws).map (fun ((_, pq, _), w) => (pq, w))))
+        if rz.sum > Tz ∨ rq.sum > Tq then pure "err" else
+        let per := (rz.zip rq).flatMap (fun (a, b) => [a, b])
+        pure (" ".intercalate ((per.map toString) ++ [";", toString (Tz - rz.sum), toString (Tq - rq.sum)]))
   | _ => none
 
 end ZV.Driver
